@@ -68,6 +68,15 @@ CMDS = [
     ("phase-reverse", "phase -i reads.fa --unaligned --reverse --cut-end", False),
     ("phasent", "phasent -i reads.fa --unaligned -o phased.fa -l phase.log", False),
     ("sw", "sw -i pair.fa", False),
+    ("trim-name-map", "trim name -i in.fa -n 3 -m map.txt", False),
+    ("trim-name-auto-map", "trim name -i in.fa -a -m map.txt", False),
+    ("rename-regexp-map", "rename -i in.fa --regexp Seq --replace S -m map.txt", False),
+    ("dedup-log", "dedup -i ties.fa -l dedup.log", False),
+    ("clean-sites-positions", "clean sites -i gaps.fa -c 0.2 --positions kept.txt --positions-rm rm.txt", False),
+    ("compress-weights", "compress -i ties.fa --weight-out w.txt", False),
+    ("distance-lg", "compute distance -i aagaps.fa -m lg", False),
+    ("distance-jtt-rmgaps-gamma", "compute distance -i aagaps.fa -m jtt -r --alpha 0.8", False),
+    ("distboot-lg", "build distboot -i aagaps.fa -n 2 -m lg -r -o dist.txt", True),
 ]
 NAMES = [c[0] for c in CMDS]
 
@@ -100,6 +109,7 @@ def make_inputs(work, binary):
         open(os.path.join(d, name), "wb").write(out)
     gen("in.fa", ["random", "-n", "8", "-l", "60", "--seed", "11"])
     gen("gaps.fa", ["mutate", "gaps", "-i", "in.fa", "-n", "0.8", "-r", "0.15", "--seed", "3"])
+    gen("aagaps.fa", ["translate", "-i", "gaps.fa", "--phase", "0"])
     rng = random.Random(5)
     ties = ["ACGTACGTAAC", "ACGTACGTAAC", "CCGTTCGAAAC", "CCGTTCGAAAG", "AAGTACGTTTG", "AAGTACGTTTG"]
     open(os.path.join(d, "ties.fa"), "w").write("".join(">t%d\n%s\n" % (i, s) for i, s in enumerate(ties)))
@@ -185,8 +195,9 @@ def run_history(work, v, descriptors, tier):
         seeds = sorted({d["seed"] for d in descriptors})
         for s in seeds:
             # (a) distance matrices of the seeded bootstrap alignments = build distboot with the same seed
-            for (model, extra) in (("k2p", []), ("k2p", ["-r"]), ("jc", ["-r"]), ("f81", ["-r"]), ("tn93", ["-r"]), ("f84", [])):
-                kind, dg, so, files, cwd = execute(work, binary, ind, ["build", "seqboot", "-i", "gaps.fa", "-n", "3", "-o", "boot_", "--seed", str(s)], "seqboot")
+            for (model, extra) in (("k2p", []), ("k2p", ["-r"]), ("jc", ["-r"]), ("f81", ["-r"]), ("tn93", ["-r"]), ("f84", []), ("lg", []), ("lg", ["-r"]), ("jtt", ["-r"])):
+                src = "aagaps.fa" if model in ("lg", "jtt") else "gaps.fa"
+                kind, dg, so, files, cwd = execute(work, binary, ind, ["build", "seqboot", "-i", src, "-n", "3", "-o", "boot_", "--seed", str(s)], "seqboot")
                 parts = b""
                 ok = kind == "ok"
                 if ok:
@@ -196,7 +207,7 @@ def run_history(work, v, descriptors, tier):
                         parts += o2
                 if cwd:
                     shutil.rmtree(cwd, ignore_errors=True)
-                kind2, dg2, so2, files2, cwd2 = execute(work, binary, ind, ["build", "distboot", "-i", "gaps.fa", "-n", "3", "-m", model, "--seed", str(s)] + extra, "distboot")
+                kind2, dg2, so2, files2, cwd2 = execute(work, binary, ind, ["build", "distboot", "-i", src, "-n", "3", "-m", model, "--seed", str(s)] + extra, "distboot")
                 if cwd2:
                     shutil.rmtree(cwd2, ignore_errors=True)
                 k = "bootdist/%s%s/seed=%d" % (model, "".join(extra), s)
